@@ -526,6 +526,12 @@ func c19InProcess(c *core.C, base, outer, store string, dirKind int) {
 	var script []histStep
 	var exps []expect
 	model := map[string]*sbom.Document{}
+	// a quarter of the histories reconfigure the live instance: its directory is switched back and forth between
+	// two directories (the second one missing at first); each directory has its own model
+	store2 := filepath.Join(outer, "store2")
+	reconf := c.K%4 == 1
+	models := map[string]map[string]*sbom.Document{store: model, store2: {}}
+	curDir := store
 	seq := 0
 	put := func(b []byte) string {
 		seq++
@@ -542,9 +548,25 @@ func c19InProcess(c *core.C, base, outer, store string, dirKind int) {
 	ids := []string{c19ID(r), c19ID(r), "urn:uuid:hot"} // few ids: repeated stores of the same identifier
 	steps := 4 + r.Intn(10)
 	useSecond := r.Intn(3) == 0
+	if reconf {
+		useSecond = false
+	}
 	for s := 0; s < steps; s++ {
 		id := ids[r.Intn(len(ids))]
 		second := useSecond && r.Intn(2) == 0
+		dirArg, dirDesc := "", ""
+		if reconf {
+			if r.Intn(3) == 0 {
+				if curDir == store {
+					curDir = store2
+				} else {
+					curDir = store
+				}
+			}
+			model = models[curDir]
+			dirArg = curDir
+			dirDesc = "[Options.Path=" + filepath.Base(curDir) + "] "
+		}
 		if r.Intn(5) < 3 {
 			doc := c19Doc(r, id)
 			if r.Intn(2) == 0 {
@@ -558,15 +580,15 @@ func c19InProcess(c *core.C, base, outer, store string, dirKind int) {
 			}
 			b, _ := proto.Marshal(doc)
 			nc := r.Intn(4) == 0
-			script = append(script, histStep{Op: "store", File: put(b), NoClobber: nc, Second: second})
+			script = append(script, histStep{Op: "store", File: put(b), NoClobber: nc, Second: second, Dir: dirArg})
 			_, existed := model[id]
 			switch {
 			case id == "":
-				exps = append(exps, expect{kind: "err", desc: "Store(no id)"})
+				exps = append(exps, expect{kind: "err", desc: dirDesc + "Store(no id)"})
 			case nc && existed:
-				exps = append(exps, expect{kind: "err", desc: "Store(" + short(id) + ",no-clobber) on existing"})
+				exps = append(exps, expect{kind: "err", desc: dirDesc + "Store(" + short(id) + ",no-clobber) on existing"})
 			default:
-				exps = append(exps, expect{kind: "ok", desc: "Store(" + short(id) + ")"})
+				exps = append(exps, expect{kind: "ok", desc: dirDesc + "Store(" + short(id) + ")"})
 				model[id] = doc
 			}
 		}
@@ -575,11 +597,11 @@ func c19InProcess(c *core.C, base, outer, store string, dirKind int) {
 		if r.Intn(4) == 0 {
 			rid = "urn:uuid:never-" + fmt.Sprint(r.Intn(100))
 		}
-		script = append(script, histStep{Op: "retrieve", File: put([]byte(rid)), Second: useSecond && r.Intn(2) == 0})
+		script = append(script, histStep{Op: "retrieve", File: put([]byte(rid)), Second: useSecond && r.Intn(2) == 0, Dir: dirArg})
 		if d, ok := model[rid]; ok && rid != "" {
-			exps = append(exps, expect{kind: "doc", doc: d, desc: "Retrieve(" + short(rid) + ")"})
+			exps = append(exps, expect{kind: "doc", doc: d, desc: dirDesc + "Retrieve(" + short(rid) + ")"})
 		} else {
-			exps = append(exps, expect{kind: "err", desc: "Retrieve(" + short(rid) + ") never stored"})
+			exps = append(exps, expect{kind: "err", desc: dirDesc + "Retrieve(" + short(rid) + ") never stored"})
 		}
 	}
 	sb, _ := json.Marshal(script)
@@ -591,6 +613,9 @@ func c19InProcess(c *core.C, base, outer, store string, dirKind int) {
 		return
 	}
 	c.Cover("in-process-histories")
+	if reconf {
+		c.Cover("in-process-histories-that-reconfigure-the-directory-of-a-live-instance")
+	}
 	if useSecond {
 		c.Cover("in-process-histories-with-two-instances")
 	}
@@ -643,12 +668,28 @@ func c19InProcess(c *core.C, base, outer, store string, dirKind int) {
 		}
 	}
 	for p := range treeState(outer) {
-		if !strings.HasPrefix(p, store+"/") && p != filepath.Join(outer, "sibling", "keep.txt") {
+		if !strings.HasPrefix(p, store+"/") && !(reconf && strings.HasPrefix(p, store2+"/")) && p != filepath.Join(outer, "sibling", "keep.txt") {
 			fail("file-outside-directory", "a file appeared outside the configured directory: %s", p)
 			return
 		}
 	}
-	if len(model) >= 2 {
+	if reconf {
+		// every directory holds exactly as many entries as its model (an entry written into the directory that was
+		// configured EARLIER shows here even when no retrieve asked for it)
+		for d, m := range models {
+			n := 0
+			for p := range treeState(outer) {
+				if strings.HasPrefix(p, d+"/") {
+					n++
+				}
+			}
+			if n != len(m) {
+				fail("entry-in-the-wrong-directory", "directory %s holds %d files, the history stored %d distinct identifiers there", filepath.Base(d), n, len(m))
+				return
+			}
+		}
+	}
+	if len(models[store]) >= 2 {
 		c.DistinctStr("inproc:" + strings.Join(trace, ";")[:min(1500, len(strings.Join(trace, ";")))])
 	}
 }
